@@ -215,3 +215,18 @@ PROPS["C18"] = {
     "thorough": {"cases": 6000000, "floor_evaluations": 3000000},
     "regress": [],
 }
+
+C03_ROWS = ["default", "dial0000", "dial1111", "dial1010", "dial0101", "num01", "num10", "num00", "g1_16_4_1", "g2_128_4_2", "arduino"]
+PROPS["C03"] = {
+    "title": "Deserializers are memory-safe, input-bounded and source-independent on any bytes",
+    "src": "c03.cpp",
+    "level": "exploration",
+    "technique": "property-based fuzzing under ASan/UBSan with the library's DEBUG assertions on: generated valid/truncated/mutated/random inputs delivered through every input kind from exactly sized heap blocks; differential between kinds; counting reader for the progress bound; inspector + reuse checks on the resulting document; 11 build configurations; libFuzzer in the thorough tier",
+    "rule": "case = (format, bytes, nesting limit 0..255, one of 15 filters): bytes from valid generated texts/encodings (40%), their truncations (25%), mutations incl. huge declared lengths, 10^4 brackets, lone surrogates, splices (25%), random bytes (10%); each case is delivered through every applicable input kind (const char*, char*, (ptr,size) x3, std::string, string_view, istream, custom reader, variant; Arduino String/Stream/flash in the arduino row) and all outcomes are compared; non-trivial = code other than EmptyInput and >= 4 bytes; distinct = hash of (bytes, filter, limit)",
+    "level_text": "Exploration (fuzzing with a semantic oracle): no sanitizer report or library assertion, one of the six codes, no byte requested twice or after the end, identical code and document for all input kinds, and a well-formed document afterwards (public traversal, internal invariants through the inspector hook, serializers agree with measure, clear() returns every block, the document can be reused).",
+    "level_note": "Termination is replaced by the checkable progress bound (reads <= size+1 through the counting reader; a genuine hang hits the shard timeout and is reported as inconclusive). Out-of-bounds reads are observed through ASan redzones around exactly sized input blocks.",
+    "quick": {"configs": C03_ROWS, "cases": 100000, "floor_evaluations": 800000, "floor_nontrivial": 50000},
+    "thorough": {"configs": C03_ROWS, "cases": 1500000, "floor_evaluations": 10000000, "fuzz_s": 300},
+    "regress": ["msgpack_wildcard_over_array"],
+    "fuzz": True,
+}
